@@ -66,6 +66,14 @@ CHECKS = {
         "Trusts vp/treeref.substitute; alias keys that are paths rooted at a lambda variable are excluded (statement silent).",
         "DESIGN.md §6 C14",
     ),
+    "C17": (
+        "Hypothesis grammar generation with planted variable-rooted paths and decoys; reference-model (independent re-rooting) oracle, identity and no-mutation checks",
+        "Paths rooted at the variable (depth 1-4) and decoys (bare variable, inner segment, namespaced identifier of "
+        "the same name) are planted at random operand positions of generated full-grammar trees; the result of "
+        "expression_relative_to_identifier is decoded and compared with the harness's own re-rooting.",
+        "Trusts vp/treeref.reroot; nested lambdas that re-bind the same variable name are outside the quantifier.",
+        "DESIGN.md §6 C17",
+    ),
 }
 
 ALL = ["C%02d" % i for i in range(1, 21)]
